@@ -1,17 +1,20 @@
 #!/bin/bash
-# usage: try_seed.sh <patch.diff> [property ...]   -- applies the patch to /repo, runs the checks, reverts.
+# usage: try_seed.sh <patch.diff> [property ...]
+# Applies the patch in a scratch worktree of /repo HEAD (outside /repo and /verif), runs the checks against it
+# (argotcheck -repo), prints the violations, removes the worktree.
 set -u
-patch=$1; shift
+patch=$(readlink -f "$1"); shift
 props=${@:-$(python3 -c "import json;print(' '.join(c['property_id'] for c in json.load(open('/verif/MANIFEST.json'))['checks']))")}
-cd /repo || exit 2
-if ! git diff --quiet; then echo "/repo has uncommitted changes; abort"; exit 2; fi
-git apply "$patch" || { echo "patch does not apply"; exit 2; }
+wt=$(mktemp -d /tmp/seedtry.XXXXXX)
+git -C /repo worktree add -q --detach "$wt" HEAD || exit 2
+trap 'git -C /repo worktree remove --force "$wt" >/dev/null 2>&1; rm -rf "$wt"' EXIT
+cd "$wt" && git apply "$patch" || { echo "patch does not apply"; exit 2; }
 export GOFLAGS=-mod=mod GOPROXY=off GOSUMDB=off GOTOOLCHAIN=local
 go build ./... 2>&1 | tail -3
+mkdir -p /tmp/seedrun && cp /verif/known_findings.jsonl /tmp/seedrun/
 for p in $props; do
-  out=$(/verif/bin/argotcheck -property $p -tier quick -verif /tmp/seedrun 2>&1)
-  echo "== $p: $(echo "$out" | grep -c '^  violation') violation(s)"
-  echo "$out" | grep '^  violation' | cut -c1-260
+  out=$(/verif/bin/argotcheck -property $p -tier quick -repo "$wt" -verif /tmp/seedrun 2>&1)
+  n=$(echo "$out" | grep -c '^  violation')
+  echo "== $p: $n violation(s)"
+  echo "$out" | grep '^  violation' | cut -c1-300
 done
-git checkout -- . && git clean -fdq -- . >/dev/null 2>&1
-git status --short | head -3
